@@ -273,15 +273,15 @@ func newWorker() *worker { return &worker{agg: aggregator{}} }
 //
 //	class    input class (shapes of the arguments)
 //	wantC    class of the expected outcome, gotC class of the observed one
-//	va       "yes"/"no": do reference and implementation agree on the volume
-//	         name length of every string involved ("n/a" on Linux)
+//	va       volume cause (see volCause): "none", "n/a" (Linux) or the shape of
+//	         the first string whose volume name the two sides parse differently
 //	check    sub-check (PathIterator only)
 func (w *worker) record(o *osCtx, fn int, class, wantC, gotC, va, check string, mk func() example, size int) {
 	key := o.name + "\x00" + fnName[fn] + "\x00" + check + "\x00" + class + "\x00" + wantC + "\x00" + gotC + "\x00" + va
 
 	f, ok := w.agg[key]
 	if !ok {
-		sig := kf.Sig{"os": o.name, "func": fnName[fn], "class": class, "want": wantC, "got": gotC, "volagree": va}
+		sig := kf.Sig{"os": o.name, "func": fnName[fn], "class": class, "want": wantC, "got": gotC, "volcause": va}
 		if check != "" {
 			sig["check"] = check
 		}
@@ -295,18 +295,6 @@ func (w *worker) record(o *osCtx, fn int, class, wantC, gotC, va, check string, 
 	if f.wouldKeep(size) {
 		f.addExample(mk())
 	}
-}
-
-func vaString(o *osCtx, agree bool) string {
-	if !o.win {
-		return "n/a"
-	}
-
-	if agree {
-		return "yes"
-	}
-
-	return "no"
 }
 
 func q(s string) string { return strconv.Quote(s) }
